@@ -56,6 +56,8 @@ def main(tier):
                 params['k%d' % i] = kd
                 fl['l%d' % i] = 2
             jobs.append(('cmd.VerifC09FileOnce', dict(fixlen=fl, params=params, unwind=40, exclude=exclude, timeout_ms=120000, terminal_obligations=(), hooks={'fixed_map_order': True})))
+    base_jobs = jobs
+    jobs = []
     # files that already carry the header (with or without the blank line after it) followed by 0..K short lines
     for k in range(0, (1 if tier == 'quick' else 2) + 1):
         for H, kinds in itertools.product((1, 2), itertools.product((0, 3), repeat=k)):
@@ -65,6 +67,7 @@ def main(tier):
                 params['k%d' % i] = kd
                 fl['l%d' % i] = 2
             jobs.append(('cmd.VerifC09FileOnce', dict(fixlen=fl, params=params, unwind=40, exclude=exclude, timeout_ms=120000, terminal_obligations=(), hooks={'fixed_map_order': True})))
-    rs, viol = ck.run('file-once', jobs, job_timeout=330 if tier == 'quick' else 1500, bounds={'lines': '0..%d' % K, 'with_header': 'header (without / with the blank line after it) + 0..%d lines (empty | 2 symbolic bytes)' % (1 if tier == 'quick' else 2), 'line_kinds': 'empty | header line 1 | header line 2 | 2 symbolic bytes', 'final_newline': 'symbolic'})
+    jobs = jobs + base_jobs
+    rs, viol = ck.run('file-once', jobs, job_timeout=400 if tier == 'quick' else 1500, bounds={'lines': '0..%d' % K, 'with_header': 'header (without / with the blank line after it) + 0..%d lines (empty | 2 symbolic bytes)' % (1 if tier == 'quick' else 2), 'line_kinds': 'empty | header line 1 | header line 2 | 2 symbolic bytes', 'final_newline': 'symbolic'})
     ck.triage(viol)
     return ck.finish()
